@@ -12,6 +12,7 @@ import (
 
 	"github.com/vapourismo/knx-go/knx/simnet"
 	"github.com/vapourismo/knx-go/knx/simrt"
+	"github.com/vapourismo/knx-go/knx/util"
 )
 
 // RunSpec identifies one simulated execution completely: scenario + seed (+ recorded decisions
@@ -211,7 +212,17 @@ func executeOnce(t *testing.T, spec RunSpec) (res *RunResult) {
 		f := simnet.New(s, ncfg)
 		defer f.Close()
 		e.F = f
-		s.Run(func() { sc.Run(e) })
+		s.Run(func() {
+			// a quarter of the runs install a log target: the library's diagnostics (which format
+			// their subject with reflection) are code that runs, or does not, with the application's setup
+			util.Logger = nil
+			if e.Choose("cfg.logger", 4) == 0 {
+				util.Logger = discardLog{}
+				e.Probe("logger-installed")
+			}
+			defer func() { util.Logger = nil }()
+			sc.Run(e)
+		})
 
 		sort.Slice(s.Panics, func(i, j int) bool { return s.Panics[i].Task < s.Panics[j].Task })
 		for _, p := range s.Panics {
@@ -463,3 +474,8 @@ func dumpValue(b *strings.Builder, v reflect.Value, depth int) {
 		b.WriteString(v.Type().String())
 	}
 }
+
+// discardLog is a log target that formats nothing and keeps nothing.
+type discardLog struct{}
+
+func (discardLog) Printf(string, ...interface{}) {}
